@@ -501,6 +501,9 @@ def gen_array(rng, name, shape, klass):
 
 def gen_spec_route(rng, name, par, a, kind, scale):
     """proximal_operator with dict / list valued constraints: returns (effective operator, effective parameter, route)"""
+    if rng.random() < 0.08:
+        # n_const=None: proximal_operator returns the tensor unchanged whatever constraint is named
+        return "identity", None, {"specs": [[name, rng.choice(["dict", "scalar"]), 0, par]], "n_const": None, "order": 0}
     n_const = rng.choice([1, 2, 3, 4])
     mode = rng.randrange(n_const)
     style = rng.choice(["dict", "list", "scalar"]) if n_const == 1 else rng.choice(["dict", "list"])
@@ -526,7 +529,7 @@ def gen_spec_route(rng, name, par, a, kind, scale):
 
 def gen_cases(tier, rng):
     """yields (name, par, array, route, kind, klass)"""
-    nrep = 2 if tier == "quick" else 14
+    nrep = 2 if tier == "quick" else 10
     shapes_q = [(1,), (2,), (3,), (5,), (8,), (1, 1), (4, 1), (1, 3), (3, 2), (5, 3)]
     shapes_t = shapes_q + [(4,), (6,), (7,), (12,), (2, 2), (6, 4), (9, 2), (2, 5)]
     mshapes_q = [(1, 1), (2, 2), (3, 2), (2, 3), (4, 4), (1, 3)]
@@ -639,6 +642,11 @@ def predicates(name, par, a, out, route, rng, firm_rounds=1):
     if name == "identity":
         same = isinstance(out, np.ndarray) and out.shape == np.asarray(a).shape and np.array_equal(out, a)
         return [] if same else [("identity_unchanged", "no constraint is registered for the selected mode but the tensor was changed")]
+    a_shape = np.asarray(a).shape
+    ok_shapes = [a_shape] + ([(a_shape[0], 1)] if name in ("monotone_inc", "monotone_dec", "unimodality") and len(a_shape) == 1 else [])
+    if isinstance(out, np.ndarray) and out.size == np.asarray(a).size and out.shape not in ok_shapes:
+        # (monotonicity_prox / unimodality_prox return an (n, 1) column for a 1-D input: accepted as the same point)
+        return [(name + "_feasible", f"output has shape {out.shape}, the input {a_shape}: not a point of the input's space")]
     fails = check_svd_output(name, par, a, out, rng) if name in ("svt", "procrustes") else check_output(name, par, a, out, rng)
     if not fails and name in PROJECTION:
         m = check_idempotent(name, par, route, out)
